@@ -151,6 +151,14 @@ func pathOf(v ssa.Value) (root ssa.Value, path string, ok bool) {
 			return r, p, true
 		case *ssa.Global:
 			return a, "", true
+		case *ssa.Alloc, *ssa.FreeVar:
+			// a variable that lives in a cell because closures capture it, written exactly once: its loads are that value
+			if cv, ok := cellValue(x); ok {
+				if r, p, isPath := pathOf(cv); isPath {
+					return r, p, true
+				}
+				return cv, "", false
+			}
 		}
 	case *ssa.Field:
 		r, p, _ := pathOf(x.X)
@@ -1782,4 +1790,143 @@ func (m *Model) forwardLocal(root *ssa.Alloc, path string, at ssa.Instruction) (
 		return nil, "", nil, false
 	}
 	return cand.Val, rest, cand, true
+}
+
+// cellValue: ld loads a local variable's cell (an Alloc, or the free variable of a closure bound to one) that is stored
+// to exactly once, in the function that declares it, by a store that precedes every closure creation that binds it —
+// the usual shape of a variable captured by closures but never reassigned. Returns the stored value.
+func cellValue(ld *ssa.UnOp) (ssa.Value, bool) {
+	if ld.Op != token.MUL {
+		return nil, false
+	}
+	var cell *ssa.Alloc
+	switch a := ld.X.(type) {
+	case *ssa.Alloc:
+		cell = a
+	case *ssa.FreeVar:
+		v := ssa.Value(a)
+		for d := 0; d < 4 && cell == nil; d++ {
+			fv, ok := v.(*ssa.FreeVar)
+			if !ok {
+				return nil, false
+			}
+			g := fv.Parent()
+			par := g.Parent()
+			if par == nil {
+				return nil, false
+			}
+			idx := -1
+			for i, x := range g.FreeVars {
+				if x == fv {
+					idx = i
+				}
+			}
+			var bound ssa.Value
+			n := 0
+			for _, b := range par.Blocks {
+				for _, in := range b.Instrs {
+					if mc, ok := in.(*ssa.MakeClosure); ok && mc.Fn == ssa.Value(g) && idx >= 0 && idx < len(mc.Bindings) {
+						bound = mc.Bindings[idx]
+						n++
+					}
+				}
+			}
+			if n != 1 || bound == nil {
+				return nil, false
+			}
+			if al, isAl := bound.(*ssa.Alloc); isAl {
+				cell = al
+			} else {
+				v = bound
+			}
+		}
+	}
+	if cell == nil || cell.Referrers() == nil {
+		return nil, false
+	}
+	if _, isStruct := cell.Type().Underlying().(*types.Pointer).Elem().Underlying().(*types.Struct); isStruct {
+		return nil, false
+	}
+	var store *ssa.Store
+	var closures []*ssa.MakeClosure
+	for _, r := range *cell.Referrers() {
+		switch x := r.(type) {
+		case *ssa.Store:
+			if x.Addr != ssa.Value(cell) || store != nil {
+				return nil, false // stored somewhere as a value, or written twice
+			}
+			store = x
+		case *ssa.MakeClosure:
+			closures = append(closures, x)
+		case *ssa.UnOp, *ssa.DebugRef:
+		default:
+			return nil, false // its address goes elsewhere
+		}
+	}
+	if store == nil {
+		return nil, false
+	}
+	// no closure that shares the cell writes it, and all of them are created after the store
+	var writes func(g *ssa.Function, fv *ssa.FreeVar, d int) bool
+	writes = func(g *ssa.Function, fv *ssa.FreeVar, d int) bool {
+		if fv.Referrers() == nil || d > 3 {
+			return d > 3
+		}
+		for _, r := range *fv.Referrers() {
+			switch x := r.(type) {
+			case *ssa.UnOp, *ssa.DebugRef:
+			case *ssa.MakeClosure:
+				inner, _ := x.Fn.(*ssa.Function)
+				for i, bnd := range x.Bindings {
+					if bnd == ssa.Value(fv) && inner != nil && i < len(inner.FreeVars) && writes(inner, inner.FreeVars[i], d+1) {
+						return true
+					}
+				}
+			default:
+				return true
+			}
+		}
+		return false
+	}
+	for _, mc := range closures {
+		g, _ := mc.Fn.(*ssa.Function)
+		if g == nil {
+			return nil, false
+		}
+		for i, bnd := range mc.Bindings {
+			if bnd == ssa.Value(cell) && i < len(g.FreeVars) && writes(g, g.FreeVars[i], 0) {
+				return nil, false
+			}
+		}
+		if !(store.Block() == mc.Block() || store.Block().Dominates(mc.Block())) {
+			return nil, false
+		}
+		if store.Block() == mc.Block() {
+			before := false
+			for _, in := range store.Block().Instrs {
+				if in == ssa.Instruction(store) {
+					before = true
+				}
+				if in == ssa.Instruction(mc) && !before {
+					return nil, false
+				}
+			}
+		}
+	}
+	if ld.Parent() == store.Parent() {
+		// a load in the declaring function itself must come after the store
+		if ld.Block() == store.Block() {
+			for _, in := range ld.Block().Instrs {
+				if in == ssa.Instruction(ld) {
+					return nil, false
+				}
+				if in == ssa.Instruction(store) {
+					break
+				}
+			}
+		} else if !store.Block().Dominates(ld.Block()) {
+			return nil, false
+		}
+	}
+	return store.Val, true
 }
